@@ -72,10 +72,12 @@ namespace detail
 		template<typename genType>
 		GLM_FUNC_QUALIFIER static genType call(genType Source, genType Multiple)
 		{
-			if(Source > genType(0))
-				return Source + (Multiple - std::fmod(Source, Multiple));
+			// Remainder with the sign of Source; an exact multiple is returned unchanged
+			genType const Rem = std::fmod(Source, Multiple);
+			if(Rem > genType(0))
+				return Source + (Multiple - Rem);
 			else
-				return Source + std::fmod(-Source, Multiple);
+				return Source - Rem;
 		}
 	};
 
@@ -121,10 +123,12 @@ namespace detail
 		template<typename genType>
 		GLM_FUNC_QUALIFIER static genType call(genType Source, genType Multiple)
 		{
-			if(Source >= genType(0))
-				return Source - std::fmod(Source, Multiple);
+			// Remainder with the sign of Source; an exact multiple is returned unchanged
+			genType const Rem = std::fmod(Source, Multiple);
+			if(Rem < genType(0))
+				return Source - Rem - Multiple;
 			else
-				return Source - std::fmod(Source, Multiple) - Multiple;
+				return Source - Rem;
 		}
 	};
 
